@@ -30,7 +30,7 @@ def _plain(n):
     return n.strip('`"[]').lower() if isinstance(n, str) else n
 
 
-def shape_problems(res, mode, grouped, strict_pk=True):
+def shape_problems(res, mode, grouped, strict_pk=True, normalized=False):
     """-> list of (path, what)"""
     out = []
     if grouped:
@@ -79,9 +79,10 @@ def shape_problems(res, mode, grouped, strict_pk=True):
         al = e.get("alter") if isinstance(e.get("alter"), dict) else {}
         moved = any(k in al for k in ("dropped_columns", "renamed_columns", "modified_columns"))
         if strict_pk and isinstance(e.get("primary_key"), list) and not moved:
-            plain = {_plain(x) for x in names}
+            # with normalize_names=True every name is reported without delimiters, so a key name must be a column name as it stands
+            plain = set(names) if normalized else {_plain(x) for x in names}
             for n in e["primary_key"]:
-                if _plain(n) not in plain:
+                if (n if normalized else _plain(n)) not in plain:
                     out.append((f"{i}.primary_key", f"{n!r} is not a column of the table"))
     return out
 
@@ -94,7 +95,7 @@ def _task(t):
         r = lib.DDLParser(text, **ctor).run(**run)
     except BaseException as e:  # noqa
         return ("exc", type(e).__name__)
-    probs = shape_problems(r, run.get("output_mode", "sql"), run.get("group_by_type", False), strict_pk)
+    probs = shape_problems(r, run.get("output_mode", "sql"), run.get("group_by_type", False), strict_pk, bool(ctor.get("normalize_names")))
     try:
         enc = json.dumps(r)
     except Exception as e:  # noqa
@@ -160,6 +161,10 @@ def run(tier, seed):
     for i, t in enumerate(["DROP TABLE d1;\n", "DROP TABLE s1.d2;\nCREATE TABLE t1 (a int);\n", "CREATE TABLE t2 LIKE t1;\n", "CREATE TABLE t3 (LIKE t1);\n",
                            "CREATE TABLE t4 CLONE t1;\n", "CREATE TABLE t5 (a int);\nALTER TABLE t5 ADD UNIQUE (a);\nCREATE INDEX i1 ON t5 (a);\n"]):
         inputs.append((f"columnless:{i}", t, {}, []))
+    for i, t in enumerate(['CREATE TABLE "Orders" ("order_id" int NOT NULL, `customer_id` int, [amount] decimal(10,2), CHECK ("amount" > 0), PRIMARY KEY ("order_id", `customer_id`), UNIQUE ([amount]));\n',
+                           'CREATE TABLE s1.[T 2] ([Id] int, "b" int CHECK ("b" > 1), `c` int, CONSTRAINT "Pk 1" PRIMARY KEY ([Id], `c`));\nALTER TABLE s1.[T 2] ADD CONSTRAINT "Fk 1" FOREIGN KEY ("b") REFERENCES "o" ("x");\n',
+                           'CREATE TABLE `t3` (`a` int PRIMARY KEY CHECK (`a` > 0), "b" int REFERENCES [o] ([x]), PRIMARY KEY (`a`));\n']):
+        inputs.append((f"special:delimited{i}", t, {}, []))
     tys = ["int", "decimal(10,2)", "numeric(12,4)", "number(8,4)", "float", "varchar(10)", "double precision", "number(*,2)"]
     dfs = ["0", "5", "-1", "0.00", "1.5", "+2.50", "-0.2000", "1e5", "'x'", "'0.00'", "NULL", "CURRENT_TIMESTAMP", "(1.25)", "now()", "TRUE", "12345678901234567890", ".5"]
     for i, ty in enumerate(tys):
